@@ -189,7 +189,7 @@ def make_args(rng, kinds):
         elif k == 'tm':
             spec[k] = gen.random_tm(rng)
         elif k == 'cfg':
-            spec[k] = gen.random_cfg(rng, maxlen=3)
+            spec[k] = gen.cnf_with_unproductive(rng) if rng.random() < 0.3 else gen.random_cfg(rng, maxlen=3)
         elif k == 'word':
             first = spec[kinds[0]]
             S = sorted(first['Sigma']) if isinstance(first, dict) else Sig
